@@ -431,12 +431,33 @@ pub fn run_case(ctx: &Ctx, case: &Case, counting: bool) -> PResult {
 	if stalled {
 		let tb = progress.table.lock().unwrap().clone();
 		let stuck: Vec<String> = tb.iter().enumerate().filter(|(_, x)| !x.2).map(|(i, x)| format!("worker{}@{} ({:.0}s ago)", i, x.0, x.1.elapsed().as_secs_f64())).collect();
-		let all_waiting = tb.iter().filter(|x| !x.2).all(|x| x.0.starts_with("want:"));
+		let mut all_waiting = tb.iter().filter(|x| !x.2).all(|x| x.0.starts_with("want:"));
+		if !all_waiting {
+			// a worker that is past its first lock acquisition ("got:") may be computing, or may be blocked
+			// on a further lock inside the call (e.g. a second read of a lock it already holds, behind a
+			// queued writer). Tell the two apart by CPU time: if the whole process (this monitor sleeps,
+			// the readers were told to stop) burns no CPU for 3 s, every unfinished worker is blocked
+			let cpu = || -> Option<u64> {
+				let st = std::fs::read_to_string("/proc/self/stat").ok()?;
+				let rest = &st[st.rfind(')')? + 2..];
+				let f: Vec<&str> = rest.split(' ').collect();
+				Some(f.get(11)?.parse::<u64>().ok()? + f.get(12)?.parse::<u64>().ok()?)
+			};
+			if let Some(c0) = cpu() {
+				std::thread::sleep(Duration::from_secs(3));
+				if let Some(c1) = cpu() {
+					// clock ticks (10 ms each): allow the monitor's own wake-ups
+					if c1.saturating_sub(c0) <= 3 {
+						all_waiting = true;
+					}
+				}
+			}
+		}
 		// leak the threads: they hold locks of this case's chain only
 		std::mem::forget(handles);
 		std::mem::forget(target);
 		if all_waiting {
-			return Err(Fail::new("deadlock", format!("no progress for 45 s and every unfinished worker is waiting for a lock: {:?}", stuck)));
+			return Err(Fail::new("deadlock", format!("no progress for 45 s and every unfinished worker is blocked (waiting for a lock, or inside a call without consuming CPU): {:?}", stuck)));
 		}
 		return Err(Fail::new("harness:stall-inconclusive", format!("no progress, but not all workers are at a lock acquisition: {:?}", stuck)));
 	}
